@@ -19,21 +19,33 @@ Clauses and where they are carried:
    `frame_roundtrip`, `stream_roundtrip`, `read_bounded`, `read_oversized_refused`, `read_never_panics`,
    `read_total`, `read_truncated`, `write_refuses`, `write_never_panics`, `header_layout_ok`.
    All for every `max`, every message, every byte list: no size bound anywhere.
-2. handshake (`Model/Handshake.lean`): `handshake_iff` (V200), `handshake_iff_v033`,
-   `handshake_same_chain`, and one theorem per single deviating field
-   (`handshake_rejects_genesis / _peer_id / _chain_id / _height_era / _best_hash / _no_sender`).
-3. content-addressed blocks (`Model/BlockId.lean`): the pinned code does NOT satisfy this clause.
+2. handshake (`Model/Handshake.lean`): the status check of every protocol version the node speaks —
+   `handshake_iff` (2.0.0), `handshake_iff_v033`, `handshake_iff_v032`, `handshake_iff_v030` (0.3.1) —
+   `handshake_same_chain`, one theorem per single deviating field
+   (`handshake_rejects_genesis / _peer_id / _chain_id / _height_era / _best_hash / _bad_sender / _bad_agent`),
+   and the handshake as the peer sees it (version negotiation `findBest_spec`/`findBest_none`, the
+   wrappers `wire_inbound_ok`): the clause holds for a node that speaks only 2.0.0 and 0.3.3
+   (`wire_inbound_same_chain_partial`, `wire_outbound_same_chain_partial`, `versioned_same_chain_partial`)
+   and is REFUTED for the pinned version list (`wire_same_chain_fails`: 0.3.1 compares no genesis hash,
+   0.3.1/0.3.2 compare the chain id with the genesis-era identifier; known finding
+   `C18-legacy-handshake-0.3.x`).
+3. content-addressed blocks (`Model/BlockId.lean`, `Model/Notice.lean`): the pinned code does NOT satisfy
+   the first half of this clause.
    `id_is_digest` (full statement, in a comment below) is refuted by a concrete witness
    (`id_is_digest_fails`, `receiver_forwards_altered_copy`); what holds is proved as
    `id_is_digest_partial` (under exactly the guard "the carried Hash field is empty or genuine"),
    `receiver_delivers_requested_ids` (the receiver compares *carried* identifiers with the request, for
    every response sequence) and `receiver_blind_to_content` (it cannot tell an altered block from the
-   genuine one). `bad_copy_harmless` (an altered copy does not change the verdict on the genuine
-   block later) needs the chain service and is not carried by a theorem here: see C05 / `chainsvc`.
+   genuine one). The second half ("... without affecting what the node will later accept") at the sync
+   manager, for every history of arrivals: `genuine_refused_only_if_known`, `altered_copies_never_veto`,
+   `notice_refused_only_if_asked`, `untouched_harmless` (+ `bp_forward_iff`, `nb_request_iff`,
+   `forward_only_within_size`); at the chain service (`bad_copy_harmless`, the errored-blocks cache) it is
+   not carried by a theorem here: correspondence run `c18chain` with the Chain model of C05.
 -/
 import Aergo.Lemmas.Frame
 import Aergo.Model.Handshake
 import Aergo.Lemmas.BlockId
+import Aergo.Lemmas.Notice
 
 namespace Aergo.Props.C18
 
@@ -436,6 +448,217 @@ example :
       ∧ checkV200 exLocal { exStatus with chainID := [1, 0, 0, 0, 1, 0, 97, 98, 99, 100] } = .error .wrongStatus := by
   refine ⟨?_, ?_, ?_, ?_, ?_, ?_⟩ <;> rfl
 
+/-! ### The handshake as the peer sees it: every protocol version the node speaks, version negotiation,
+the wrappers
+
+FULL statement of the second clause (not provable on the pinned tree: refuted below, reproduced on the
+real `InboundWireHandshaker`/`OutboundWireHandshaker` by the harness, known-finding class
+`C18-legacy-handshake-0.3.x`):
+
+```
+wire_same_chain : (wireInbound w magicOK offered m).2 = true ∨ (wireOutbound w magicOK answered m).2 = true
+    → SameChain w.l m.st
+```
+It holds for a node whose version list / handshaker factory only has 2.0.0 and 0.3.3
+(`wire_inbound_same_chain_partial`, `wire_outbound_same_chain_partial`); protocol 0.3.1 compares no genesis
+hash and 0.3.1/0.3.2 compare the chain id with the genesis-era identifier instead of the one the node has
+at the peer's height. -/
+
+/-- the three things the property names -/
+def SameChain (l : Local) (st : Status) : Prop :=
+  st.genesis = l.genesis ∧ parseChainID st.chainID = some (l.chainAt st.bestHeight) ∧
+    ∃ s, st.sender = some s ∧ s.peerID = l.peerID
+
+/-- What `checkRemoteStatus` of protocol 0.3.1 decides: the chain id decodes to the *fixed* identifier,
+a sender with a usable address and the connection's peer id. Nothing about the genesis block. -/
+def Accept030 (fixed : ChainID) (l : Local) (st : Status) : Prop :=
+  ∃ s, parseChainID st.chainID = some fixed ∧ st.sender = some s ∧ s.addrOK = true ∧ s.peerID = l.peerID
+
+/-- **Handshake strictness (0.3.1)**. -/
+theorem handshake_iff_v030 (fixed : ChainID) (l : Local) (st : Status) :
+    checkV030 fixed l st = .ok () ↔ Accept030 fixed l st := by
+  constructor
+  · intro h
+    unfold checkV030 at h
+    split at h
+    · simp at h
+    · rename_i rc hp
+      split at h
+      · simp at h
+      · rename_i h1
+        split at h
+        · simp at h
+        · rename_i s hs
+          split at h
+          · simp at h
+          · rename_i h3
+            split at h
+            · simp at h
+            · rename_i h4
+              have h1' : fixed = rc := by simpa using h1
+              exact ⟨s, by rw [hp, h1'], hs, by simpa using h3, by simpa using h4⟩
+  · rintro ⟨s, hp, hs, h3, h4⟩
+    unfold checkV030
+    simp [hp, hs, h3, h4]
+
+/-- **Handshake strictness (0.3.2)**: 0.3.1 plus the genesis hash. -/
+theorem handshake_iff_v032 (fixed : ChainID) (l : Local) (st : Status) :
+    checkV032 fixed l st = .ok () ↔ Accept030 fixed l st ∧ st.genesis = l.genesis := by
+  unfold checkV032
+  constructor
+  · intro h
+    split at h
+    · simp at h
+    · rename_i u h0
+      split at h
+      · simp at h
+      · rename_i hg
+        have : checkV030 fixed l st = .ok () := by cases u; exact h0
+        exact ⟨(handshake_iff_v030 fixed l st).mp this, (by simpa using hg : l.genesis = st.genesis).symm⟩
+  · rintro ⟨h0, hg⟩
+    rw [(handshake_iff_v030 fixed l st).mpr h0]
+    simp [hg]
+
+/-- `accepted` is "the check returned nil" -/
+theorem accepted_iff (r : Except Reject Unit) : accepted r = true ↔ r = .ok () := by
+  cases r <;> simp [accepted]
+
+/-- **What each versioned handshaker guarantees** (`receiveRemoteStatus` + `checkRemoteStatus`, which is
+all `DoForInbound`/`DoForOutbound` act on): a status message was received and — for 2.0.0 and 0.3.3
+unconditionally, for 0.3.2 under the guard that the node's chain id at the peer's height still is the
+genesis-era one — the peer is on the same chain. Nothing of the kind for 0.3.1. -/
+theorem versioned_same_chain_partial (w : WireLocal) (v : Ver) (m : PeerMsg) (h : versioned w v m = true)
+    (hv : v = .v200 ∨ v = .v033 ∨ (v = .v032 ∧ w.l.chainAt m.st.bestHeight = w.fixed)) :
+    m.isStatus = true ∧ SameChain w.l m.st := by
+  unfold versioned at h
+  split at h
+  · simp at h
+  · rename_i hst
+    refine ⟨by simpa using hst, ?_⟩
+    rcases hv with rfl | rfl | ⟨rfl, hera⟩
+    · exact handshake_same_chain w.l m.st (Or.inl ((accepted_iff _).mp h))
+    · simp only [Bool.and_eq_true] at h
+      exact handshake_same_chain w.l m.st (Or.inr ((accepted_iff _).mp h.2))
+    · simp only [Bool.and_eq_true] at h
+      obtain ⟨⟨s, hp, hs, _, h4⟩, hg⟩ := (handshake_iff_v032 w.fixed w.l m.st).mp ((accepted_iff _).mp h.2)
+      exact ⟨hg, by rw [hp, hera], s, hs, h4⟩
+
+/-- `FindBestP2PVersion` picks the most preferred entry of the node's list that the peer offers. -/
+theorem findBest_spec (acc offered : List Nat) (c : Nat) (h : findBest acc offered = some c) :
+    c ∈ offered ∧ ∃ pre post, acc = pre ++ c :: post ∧ ∀ a ∈ pre, a ∉ offered := by
+  unfold findBest at h
+  obtain ⟨hc, pre, post, hsplit, hpre⟩ := List.find?_eq_some_iff_append.mp h
+  refine ⟨by simpa using hc, pre, post, hsplit, ?_⟩
+  intro a ha
+  simpa using hpre a ha
+
+/-- no common version ⇔ nothing is negotiated -/
+theorem findBest_none (acc offered : List Nat) : findBest acc offered = none ↔ ∀ a ∈ acc, a ∉ offered := by
+  simp [findBest]
+
+/-- **The inbound handshake succeeds only ...**: a usable version list with the right magic, a version
+that is in the node's list *and* offered by the peer, a handshaker for it, and that handshaker's verdict on
+a status message the peer really sent. -/
+theorem wire_inbound_ok (w : WireLocal) (magicOK : Bool) (offered : List Nat) (m : PeerMsg) (c : Nat)
+    (h : wireInbound w magicOK offered m = (c, true)) :
+    magicOK = true ∧ 0 < offered.length ∧ offered.length ≤ maxVersionCnt ∧ c ∈ w.accepted ∧ c ∈ offered ∧
+      ∃ v, verOfCode c = some v ∧ v ∈ w.made ∧ versioned w v m = true := by
+  unfold wireInbound at h
+  split at h
+  · simp at h
+  · rename_i hpre
+    simp only [Bool.or_eq_true, decide_eq_true_eq, Bool.not_eq_eq_eq_not, Bool.not_true, not_or] at hpre
+    obtain ⟨⟨hl0, hl1⟩, hmg⟩ := hpre
+    split at h
+    · simp at h
+    · rename_i c' hfb
+      obtain ⟨hoff, pre, post, hsplit, _⟩ := findBest_spec _ _ _ hfb
+      split at h
+      · simp at h
+      · rename_i v hv
+        split at h
+        · rename_i hm
+          simp only [Prod.mk.injEq] at h
+          obtain ⟨rfl, hver⟩ := h
+          refine ⟨by simpa using hmg, by omega, by omega, ?_, hoff, v, hv, by simpa using hm, hver⟩
+          rw [hsplit]; simp
+        · simp at h
+
+/-- **Same chain only, inbound** — for a node that lists only the current protocol versions. -/
+theorem wire_inbound_same_chain_partial (w : WireLocal) (magicOK : Bool) (offered : List Nat) (m : PeerMsg) (c : Nat)
+    (hcur : ∀ a ∈ w.accepted, a = Ver.v200.code ∨ a = Ver.v033.code)
+    (h : wireInbound w magicOK offered m = (c, true)) : SameChain w.l m.st := by
+  obtain ⟨_, _, _, hacc, _, v, hv, _, hver⟩ := wire_inbound_ok w magicOK offered m c h
+  have hv' : v = .v200 ∨ v = .v033 := by
+    rcases hcur c hacc with rfl | rfl
+    · left; simpa [verOfCode, Ver.code] using hv.symm
+    · right; simpa [verOfCode, Ver.code] using hv.symm
+  exact (versioned_same_chain_partial w v m hver (by rcases hv' with h | h <;> simp [h])).2
+
+/-- **Same chain only, outbound** — the version is whatever the remote answers (it is not compared with
+what the node offered), so the guard is on the handshaker factory. -/
+theorem wire_outbound_same_chain_partial (w : WireLocal) (magicOK : Bool) (answered : Nat) (m : PeerMsg)
+    (hcur : ∀ v ∈ w.made, v = .v200 ∨ v = .v033)
+    (h : (wireOutbound w magicOK answered m).2 = true) : SameChain w.l m.st := by
+  unfold wireOutbound at h
+  split at h
+  · simp at h
+  · split at h
+    · simp at h
+    · rename_i v hv
+      split at h
+      · rename_i hm
+        have hv' := hcur v (by simpa using hm)
+        exact (versioned_same_chain_partial w v m h (by rcases hv' with h | h <;> simp [h])).2
+      · simp at h
+
+/-- the outbound side does not look at the node's version list at all -/
+theorem wire_outbound_ignores_offer (w : WireLocal) (acc' : List Nat) (magicOK : Bool) (answered : Nat) (m : PeerMsg) :
+    wireOutbound { w with accepted := acc' } magicOK answered m = wireOutbound w magicOK answered m := by
+  unfold wireOutbound versioned
+  rfl
+
+/-- the production node: `AcceptedInboundVersions = {2.0.0, 0.3.3, 0.3.2, 0.3.1}`, a handshaker for each;
+genesis-era chain id version 0, version 2 from height 100 on -/
+def exWire : WireLocal :=
+  ⟨[Ver.v200.code, Ver.v033.code, Ver.v032.code, Ver.v031.code], [.v200, .v033, .v032, .v031],
+   ⟨0, true, false, [97, 98], [99, 100]⟩,
+   ⟨fun h => ⟨if h < 100 then 0 else 2, true, false, [97, 98], [99, 100]⟩, [1, 2, 3], [9, 9]⟩⟩
+
+/-- a peer on another chain: other genesis hash, genesis-era chain id at height 500 -/
+def exForeign : PeerMsg :=
+  ⟨true, true, ⟨[0, 0, 0, 0, 1, 0, 97, 98, 47, 99, 100], 500, List.replicate 32 5, some ⟨true, [1, 2, 3], 1, []⟩, [7, 7], []⟩⟩
+
+/-- **Negation with a concrete witness** of the full statement: a peer that offers only 0.3.1 completes the
+inbound handshake with another genesis hash and a chain id that is not the node's at that height; the
+same peer is refused at 0.3.3 and 2.0.0; with the right genesis hash it still passes 0.3.2 at the wrong
+era; and the outbound side accepts 0.3.1 when the remote answers it. -/
+theorem wire_same_chain_fails :
+    ¬ (∀ (w : WireLocal) (magicOK : Bool) (offered : List Nat) (m : PeerMsg),
+        (wireInbound w magicOK offered m).2 = true → SameChain w.l m.st) := by
+  intro h
+  have := (h exWire true [Ver.v031.code] exForeign (by decide)).1
+  revert this
+  decide
+
+/-- test on sample values: the same foreign peer, version by version -/
+example :
+    wireInbound exWire true [Ver.v031.code] exForeign = (Ver.v031.code, true)
+      ∧ wireInbound exWire true [Ver.v033.code, Ver.v031.code] exForeign = (Ver.v033.code, false)
+      ∧ wireInbound exWire true [Ver.v200.code] exForeign = (Ver.v200.code, false)
+      ∧ wireInbound exWire true [Ver.v032.code] exForeign = (Ver.v032.code, false)
+      ∧ wireInbound exWire true [Ver.v032.code] { exForeign with st := { exForeign.st with genesis := [9, 9] } } = (Ver.v032.code, true)
+      ∧ wireOutbound { exWire with accepted := [Ver.v200.code] } true Ver.v031.code exForeign = (Ver.v031.code, true)
+      ∧ wireInbound exWire true [0x300, 5] exForeign = (0, false)
+      ∧ wireInbound exWire false [Ver.v031.code] exForeign = (0, false) := by
+  refine ⟨?_, ?_, ?_, ?_, ?_, ?_, ?_, ?_⟩ <;> decide
+
+/-- non-vacuity of the partial theorems: a node with only the current versions accepts a same-chain peer -/
+example :
+    wireInbound { exWire with accepted := [Ver.v200.code, Ver.v033.code], made := [.v200, .v033] } true [Ver.v031.code, Ver.v033.code]
+        ⟨true, true, ⟨[2, 0, 0, 0, 1, 0, 97, 98, 47, 99, 100], 500, List.replicate 32 5, some ⟨true, [1, 2, 3], 1, []⟩, [9, 9], []⟩⟩
+      = (Ver.v033.code, true) := by decide
+
 end Handshake
 
 /-! ## 3. Content-addressed blocks
@@ -524,5 +747,219 @@ theorem receiver_forwards_altered_copy :
   decide
 
 end BlockId
+
+/-! ## 3b. Blocks that arrive as notices (sync manager)
+
+`HandleBlockProducedNotice` / `HandleNewBlockNotice` / `HandleGetBlockResponse` behind their handlers.
+The table of seen identifiers is keyed by the *announced* identifier. Clause "content that does not hash
+to the announced identifier is discarded without affecting what the node will later accept", at this
+entry point and for every history of arrivals:
+
+* `genuine_refused_only_if_known`, `altered_copies_never_veto`: whatever arrived before — any number of
+  copies with other content under the same identifier, from anybody — the producer's notice is passed to
+  the chain service unless the very same content was passed before or the block was already asked for
+  (a NewBlockNotice named it: the de-duplication the code intends).
+* `notice_refused_only_if_asked`: a NewBlockNotice leads to a request unless an earlier NewBlockNotice
+  named the identifier.
+* `untouched_harmless`: arrivals refused before the table (malformed identifier, sender not entitled,
+  oversized, unsolicited responses) leave no trace at all: the session without them behaves identically.
+
+Fixed findings `C18-seen-cache-poisoned-by-altered-notice` (27f3484f, 3a7d8024): before, any copy that
+passed the sender check — the sender only has to put its own key into the copy's header — vetoed the
+genuine notice and every later NewBlockNotice. Not claimed: that what is forwarded hashes to its
+identifier (it does not: `C18-id-not-recomputed`, the model has no header at all here). -/
+section Notice
+open Aergo.Notice
+
+/-- a BlockProducedNotice that passes every check in front of the table, with content token `c` -/
+abbrev goodBP (id c : Bytes) : Arr := .bp id true true true true c
+
+/-- a NewBlockNotice that reaches the sync manager -/
+abbrev goodNB (id : Bytes) (chainHas : Bool) : Arr := .nb id true false chainHas
+
+/-- **When is the producer's notice passed on?** Exactly when the table does not hold a placeholder or
+the very same content under that identifier. -/
+theorem bp_forward_iff (s : Seen) (id c : Bytes) :
+    (step s (goodBP id c)).2 = .forward id ↔
+      s.lookup id ≠ some .placeholder ∧ s.lookup id ≠ some (.digest c) := by
+  have hg := get_fst s id
+  unfold step
+  simp only [Bool.and_self, Bool.not_true, Bool.false_eq_true, if_false]
+  generalize s.get id = r at hg
+  obtain ⟨o, s1⟩ := r
+  simp only at hg
+  subst hg
+  cases hl : s.lookup id with
+  | none => simp
+  | some v =>
+    cases v with
+    | placeholder => simp
+    | digest c' =>
+      by_cases hc : c' = c
+      · subst hc; simp
+      · simp [hc]
+
+/-- **When does a NewBlockNotice lead to a request?** Exactly when the chain lacks the block and the
+table holds no placeholder for it (a content digest does not count). -/
+theorem nb_request_iff (s : Seen) (id : Bytes) (chainHas : Bool) :
+    (step s (goodNB id chainHas)).2 = .request id ↔ chainHas = false ∧ s.lookup id ≠ some .placeholder := by
+  unfold step
+  simp only [Bool.not_false, Bool.and_self, Bool.not_true, Bool.false_eq_true, if_false]
+  cases hl : s.lookup id with
+  | none => cases chainHas <;> simp
+  | some v =>
+    cases v with
+    | placeholder => simp
+    | digest c => cases chainHas <;> simp
+
+/-- **Clause 3 at the sync manager, every history**: after any session from an empty table, the
+producer's notice is refused only if the session contained a NewBlockNotice naming the identifier or a
+BlockProducedNotice with the very same content. -/
+theorem genuine_refused_only_if_known (cap : Nat) (h : List Arr) (id c : Bytes)
+    (hr : (step (run ⟨cap, []⟩ h).1 (goodBP id c)).2 ≠ .forward id) :
+    (∃ ch, goodNB id ch ∈ h) ∨ goodBP id c ∈ h := by
+  have : ¬ ((run ⟨cap, []⟩ h).1.lookup id ≠ some .placeholder ∧ (run ⟨cap, []⟩ h).1.lookup id ≠ some (.digest c)) :=
+    fun hh => hr ((bp_forward_iff _ id c).mpr hh)
+  have hcase : (run ⟨cap, []⟩ h).1.lookup id = some .placeholder ∨ (run ⟨cap, []⟩ h).1.lookup id = some (.digest c) := by
+    by_cases h1 : (run ⟨cap, []⟩ h).1.lookup id = some .placeholder
+    · exact Or.inl h1
+    · by_cases h2 : (run ⟨cap, []⟩ h).1.lookup id = some (.digest c)
+      · exact Or.inr h2
+      · exact absurd ⟨h1, h2⟩ this
+  rcases hcase with hl | hl
+  · rcases run_mem _ h _ (lookup_mem _ id _ hl) with hm | ⟨a, ha, hp⟩
+    · simp at hm
+    · obtain ⟨ch, rfl⟩ := hp
+      exact Or.inl ⟨ch, ha⟩
+  · rcases run_mem _ h _ (lookup_mem _ id _ hl) with hm | ⟨a, ha, hp⟩
+    · simp at hm
+    · simp only [Puts] at hp
+      subst hp
+      exact Or.inr ha
+
+/-- **Altered copies never veto the genuine block**: if nobody announced the block by a NewBlockNotice and
+the genuine content was not passed on before, the producer's notice goes to the chain service — whatever
+else the session contained (copies with other content under the same identifier included). -/
+theorem altered_copies_never_veto (cap : Nat) (h : List Arr) (id c : Bytes)
+    (hnb : ∀ ch, goodNB id ch ∉ h) (hc : goodBP id c ∉ h) :
+    (step (run ⟨cap, []⟩ h).1 (goodBP id c)).2 = .forward id := by
+  by_cases hf : (step (run ⟨cap, []⟩ h).1 (goodBP id c)).2 = .forward id
+  · exact hf
+  · rcases genuine_refused_only_if_known cap h id c hf with ⟨ch, hm⟩ | hm
+    · exact absurd hm (hnb ch)
+    · exact absurd hm hc
+
+/-- **A NewBlockNotice is ignored only if the block was already asked for**: after any session, a notice
+for a block the chain lacks produces a request unless an earlier NewBlockNotice named it. -/
+theorem notice_refused_only_if_asked (cap : Nat) (h : List Arr) (id : Bytes)
+    (hr : (step (run ⟨cap, []⟩ h).1 (goodNB id false)).2 ≠ .request id) : ∃ ch, goodNB id ch ∈ h := by
+  have hl : (run ⟨cap, []⟩ h).1.lookup id = some .placeholder := by
+    by_cases h1 : (run ⟨cap, []⟩ h).1.lookup id = some .placeholder
+    · exact h1
+    · exact absurd ((nb_request_iff _ id false).mpr ⟨rfl, h1⟩) hr
+  rcases run_mem _ h _ (lookup_mem _ id _ hl) with hm | ⟨a, ha, hp⟩
+  · simp at hm
+  · obtain ⟨ch, rfl⟩ := hp
+    exact ⟨ch, ha⟩
+
+/-- does the arrival get as far as the table? -/
+def touches : Arr → Bool
+  | .bp _ present lenOK senderOK sizeOK _ => present && lenOK && senderOK && sizeOK
+  | .nb _ lenOK peerSeen _ => lenOK && !peerSeen
+  | .gbr _ _ => false
+
+/-- an arrival refused in front of the table leaves the table as it was -/
+theorem step_untouched (s : Seen) (a : Arr) (h : touches a = false) : (step s a).1 = s := by
+  unfold step
+  cases a with
+  | bp id p l sd sz c =>
+    simp only [touches] at h
+    cases p <;> cases l <;> cases sd <;> cases sz <;> simp_all
+  | nb id l ps ch =>
+    simp only [touches] at h
+    cases l <;> cases ps <;> simp_all
+  | gbr ok bs =>
+    simp only
+    split
+    · rfl
+    · split
+      · split <;> rfl
+      · rfl
+
+/-- **Refused arrivals are harmless** (malformed identifier, sender not entitled to send the block,
+oversized copy, unsolicited response): the table after the session, and what happens to every other
+arrival, are the same as in the session without them. -/
+theorem untouched_harmless (s : Seen) (h : List Arr) :
+    (run s h).1 = (run s (h.filter touches)).1 ∧
+      ((h.zip (run s h).2).filter (fun p => touches p.1)).map (·.2) = (run s (h.filter touches)).2 := by
+  induction h generalizing s with
+  | nil => simp [run]
+  | cons a as ih =>
+    by_cases ht : touches a = true
+    · simp only [run, List.filter_cons, ht, if_true, List.zip_cons_cons, List.map_cons]
+      exact ⟨(ih _).1, by rw [(ih _).2]⟩
+    · have hf : touches a = false := by simpa using ht
+      simp only [run, List.filter_cons, hf, List.zip_cons_cons, step_untouched s a hf]
+      simpa using ih s
+
+/-- nothing larger than a block may be is passed to the chain service -/
+theorem forward_only_within_size (s : Seen) (a : Arr) (id : Bytes) (h : (step s a).2 = .forward id) :
+    (∃ c, a = goodBP id c) ∨ (a = .gbr true [(id, true)]) := by
+  unfold step at h
+  cases a with
+  | bp id' p l sd sz c =>
+    simp only at h
+    split at h
+    · simp at h
+    · rename_i h1
+      split at h
+      · simp at h
+      · rename_i h2
+        have hp : p = true ∧ l = true ∧ sd = true ∧ sz = true := by
+          cases p <;> cases l <;> cases sd <;> cases sz <;> simp_all
+        obtain ⟨rfl, rfl, rfl, rfl⟩ := hp
+        split at h
+        · split at h
+          · simp at h
+          · simp at h; subst h; exact Or.inl ⟨c, rfl⟩
+        · simp at h; subst h; exact Or.inl ⟨c, rfl⟩
+  | nb id' l ps ch =>
+    simp only at h
+    split at h
+    · simp at h
+    · split at h
+      · simp at h
+      · split at h <;> simp at h
+      · split at h <;> simp at h
+  | gbr ok bs =>
+    simp only at h
+    split at h
+    · simp at h
+    · rename_i hok
+      split at h
+      · rename_i id' szok
+        split at h
+        · rename_i hz
+          simp at h; subst h
+          have : ok = true := by simpa using hok
+          subst this; subst hz
+          exact Or.inr rfl
+        · simp at h
+      · simp at h
+
+/-- regression of the fixed findings (test on sample values, table of 300 entries as in production): an
+altered copy first — the producer's notice still goes through, and so does a later NewBlockNotice; the
+same content twice is a duplicate; an oversized copy and a copy from a sender that is not entitled leave no
+trace; a bare NewBlockNotice still makes the producer's notice a duplicate (intended de-duplication). -/
+example :
+    (run ⟨300, []⟩ [goodBP [1] [7], goodBP [1] [8], goodNB [1] false, goodBP [1] [8]]).2
+        = [.forward [1], .forward [1], .request [1], .nothing]
+      ∧ (run ⟨300, []⟩ [.bp [1] true true true false [7], .bp [1] true true false true [7], goodBP [1] [8]]).2
+        = [.nothing, .nothing, .forward [1]]
+      ∧ (run ⟨300, []⟩ [goodNB [1] false, goodBP [1] [8], goodNB [1] false]).2 = [.request [1], .nothing, .nothing]
+      ∧ (run ⟨1, []⟩ [goodNB [1] false, goodNB [2] false, goodNB [1] false]).2 = [.request [1], .request [2], .request [1]] := by
+  refine ⟨?_, ?_, ?_, ?_⟩ <;> decide
+
+end Notice
 
 end Aergo.Props.C18
